@@ -1,5 +1,5 @@
 # replay of a bounded stand-in violation (C06): re-run native/c06_measure.py
 import sys
-print('fock sampled homodyne(phi=0.700) on mode 0 of 2: the sampling distribution has mean -0.0249, variance 1.0630; the Born distribution of x_phi has mean -0.0249, variance 1.1430')
+print('post-selected heterodyne on mode 0 of 2: gaussian and bosonic conditional states differ (max 0.00124)')
 print('REPLAY-VIOLATION')
 sys.exit(1)
